@@ -169,7 +169,7 @@ REG.spec('agent/executing/popen.py:Popen._check_running',
             'not indom(self._tasks, tasks_to_advance[j].uid) and outcome_ok(tasks_to_advance[j])))'],
     },
     opts   = dict(merge='scalars'),
-    serves = ['C05', 'C07'])
+    serves = ['C03', 'C05', 'C07'])
 
 
 def _get_launcher(ex, node, st):
@@ -206,7 +206,7 @@ REG.spec('agent/executing/popen.py:Popen.cancel_task',
        'implies(not indom(old(self._tasks), old(task.uid)) or old(task).proc is None, '
        'self._tasks == old(self._tasks) and fin_log == old(fin_log) and adv_log == old(adv_log))'),
     ],
-    serves = ['C07', 'C08'])
+    serves = ['C03', 'C07', 'C08'])
 
 
 # Popen._handle_task builds the scripts and spawns the process (file system,
@@ -259,7 +259,7 @@ REG.spec('agent/executing/popen.py:Popen.work',
             'adv_log[k].uid == fin_log[k - len(old(adv_log)) - len(tasks) + len(old(fin_log))].uid))'],
     },
     opts   = dict(merge='scalars'),
-    serves = ['C05', 'C07'])
+    serves = ['C03', 'C05', 'C07'])
 
 
 REG.spec('agent/executing/popen.py:Popen.get_task',
@@ -430,3 +430,91 @@ for _cls, _fwd, _extra in (('AgentComponent', True,
                        'forall(lambda i: implies(0 <= i < i_thing, things[i].target_state == state and things[i].uid == old(things)[i].uid%s))' % _extra,
                        'sup_log == old(sup_log)']},
         serves = ['C05', 'C16'])
+
+
+# ------------------------------------------------------------------------------
+# C05: BaseComponent.work_cb, the dispatch of one batch of things to the worker
+# routines: a worker that raises fails the things of its bulk (exception recorded,
+# FAILED published, not pushed) and nothing escapes - the component lives on
+WThing = T.Rec('WThing', uid=T.Str, state=OStr, exception=OAny, exception_detail=OAny)
+REG.optional_keys['WThing'] = {'state', 'exception', 'exception_detail'}
+WEvt = T.Rec('WorkEvt', state=OStr, n=T.Int, ok=T.Bool)
+
+
+def _worker_call(ex, node, st):
+    """self._workers[state](things): any worker routine - returns or raises
+    anything; the call is logged (ghost `work_log`)"""
+    things = ex.ev(node.args[0], st)
+    state = ex.get_var(st, 'state')
+    log = ex.get_var(st, 'work_log')
+    lty = log.ty
+    n = lty.len(log.term)
+    raised = st.fork(); raised.guards = []
+    ev = lambda ok: WEvt.mk(coerce(state, OStr).term, things.ty.len(things.term), z3.BoolVal(ok))
+    raised.env = dict(st.env)
+    raised.env['work_log'] = Val(lty, lty.mk(z3.Store(lty.arr(log.term), n, ev(False)), n + 1))
+    raised.env['n_raised'] = Val(T.Int, ex.get_var(st, 'n_raised').term + 1)
+    ex.exits.append(('Exception', raised, ex.cur_line))
+    st.env['work_log'] = Val(lty, lty.mk(z3.Store(lty.arr(log.term), n, ev(True)), n + 1))
+    return C.NONE
+_worker_call.mutates = ('work_log', 'n_raised')
+
+def _w_advance(ex, node, st):
+    """self.advance(things, rps.FAILED, publish=True, push=False) in the handler"""
+    things = ex.ev(node.args[0], st)
+    state = ex.ev(node.args[1], st)
+    kw = {k.arg: ex.ev(k.value, st) for k in node.keywords}
+    ok = z3.And(state.term == C.str_lit('FAILED') if not state.has_py() else z3.BoolVal(state.py == 'FAILED'),
+                C.truthy(kw.get('publish', C.lift(True))), z3.Not(C.truthy(kw.get('push', C.lift(False)))))
+    ex.oblige(st, 'failed-things-are-published-not-pushed@L%s' % ex.cur_line, ok, 'post',
+              note='things of a failed bulk are advanced to FAILED, published and not pushed on')
+    log = ex.get_var(st, 'failed_bulks')
+    lty = log.ty
+    n = lty.len(log.term)
+    st.env['failed_bulks'] = Val(lty, lty.mk(z3.Store(lty.arr(log.term), n, things.term), n + 1))
+    # which worker call this bulk belongs to: the last one logged
+    wl = ex.get_var(st, 'work_log')
+    fi = ex.get_var(st, 'fidx')
+    st.env['fidx'] = Val(fi.ty, fi.ty.mk(z3.Store(fi.ty.val(fi.term), wl.ty.len(wl.term) - 1, n), fi.ty.dom(fi.term)))
+    return C.NONE
+_w_advance.mutates = ('failed_bulks', 'fidx')
+
+def _trace(ex, node, st):
+    return ex.fresh_wf(st, T.List(T.Str), 'trace')
+_trace.mutates = ()
+
+def _repr2(ex, node, st):
+    return fresh(T.Str, 'repr')
+_repr2.mutates = ()
+
+WThingL = T.List(WThing)
+REG.spec('utils/component.py:BaseComponent.work_cb#dispatch',
+    fragment = 'for state,things in buckets.items():',
+    params   = dict(buckets=T.Map(OStr, WThingL), states=T.List(OStr)),
+    self     = dict(_workers=T.Map(OStr, T.Any), _cancel_list=T.List(T.Str)),
+    ghost    = dict(work_log=T.List(WEvt), failed_bulks=T.List(WThingL), n_raised=T.Int, fidx=T.Map(T.Int, T.Int)),
+    calls    = {'self._workers[state]': _worker_call, 'ru.get_exception_trace': _trace, 'repr': _repr2},
+    effects  = {'self.advance': _w_advance},
+    requires = ['len(self._cancel_list) == 0', 'len(work_log) == 0', 'len(failed_bulks) == 0', 'n_raised == 0'],
+    modifies = ['buckets', 'work_log', 'failed_bulks', 'n_raised', 'fidx'],
+    raises   = {'AssertionError': 'True'},
+    raises_weak = ['AssertionError'],
+    frame_on_raise = False,
+    no_raise_is_property = True,
+    ensures  = [
+      ('every-bulk-is-handed-to-its-worker-once', 'len(work_log) == len(keys_things)'),
+      ('a-failing-worker-fails-its-own-bulk-only',
+       'forall(lambda k: implies(0 <= k < len(work_log) and not work_log[k].ok and bool(work_log[k].state), '
+       '0 <= at(fidx, k) < len(failed_bulks) and len(failed_bulks[at(fidx, k)]) == work_log[k].n and '
+       'forall(lambda j: implies(0 <= j < len(failed_bulks[at(fidx, k)]), failed_bulks[at(fidx, k)][j].exception is not None))))'),
+      ('no-bulk-is-failed-without-a-failing-worker', 'len(failed_bulks) <= n_raised'),
+    ],
+    loops = {'1': ['len(work_log) == i_things', 'len(failed_bulks) <= n_raised', 'n_raised <= i_things', 'len(self._cancel_list) == 0',
+                   'forall(lambda k: implies(0 <= k < len(work_log) and not work_log[k].ok and bool(work_log[k].state), '
+                   '0 <= at(fidx, k) < len(failed_bulks) and len(failed_bulks[at(fidx, k)]) == work_log[k].n and '
+                   'forall(lambda j: implies(0 <= j < len(failed_bulks[at(fidx, k)]), failed_bulks[at(fidx, k)][j].exception is not None))))'],
+             '1.1': ['len(things) == at_entry("1.1", len(things))', 'work_log == at_entry("1.1", work_log)', 'failed_bulks == at_entry("1.1", failed_bulks)',
+                     'n_raised == at_entry("1.1", n_raised)', 'forall(lambda q: at(fidx, q) == at(at_entry("1.1", fidx), q), Int)',
+                     'forall(lambda j: implies(0 <= j < i_thing, things[j].exception is not None))']},
+    opts     = dict(merge='scalars'),
+    serves   = ['C05'])
